@@ -78,6 +78,9 @@ def opName : Op → String
   | .strIn => "sin" | .i32In => "i32in" | .i64In => "i64in" | .isEmpty => "empty" | .isNotEmpty => "nempty"
 
 def parseLeaf (s : String) : Option Leaf :=
+  -- `@geo`: a geo-distance leg, true exactly when the body carries the coordinates — a leg without a hint
+  if s == "@geo" then
+    some { path := [.field "gla"], op := .isNotEmpty, cv := .none, strVals := [], intVals := [], label := "" } else
   match s.splitOn "~" with
   | [path, op, cv, label] =>
     match opOf op with
@@ -263,6 +266,32 @@ def parseQ (idx ord fr lim ft tt mx filt : String) : Option Query :=
                        maxResults := mx, filter := g })
   | _, _, _, _, _, _ => none
 
+/-- a query down both routes (through GetByIndexStream, or — tenth token `m` — GetByIndexStreamFromMany:
+    the same model) -/
+def qStep (d : DSt) (idx ord fr lim ft tt mx filt : String) : DSt × String :=
+    match slotOf idx, fr.toNat?, lim.toNat?, optT ft, optT tt, mx.toNat? with
+    | some sl, some fr, some lim, some ft, some tt, some mx =>
+      let g? : Option (Option Group) := if filt == "-" then some none else (parseGroup filt).map some
+      match g? with
+      | none => (d, "bad-op")
+      | some g =>
+        if d.store.isEmpty then (d, "b=err:noswamp s=err:noswamp") else
+        let q : Query := { slot := sl, asc := ord == "asc", from_ := fr, limit := lim, fromT := ft, toT := tt,
+                           maxResults := mx, filter := g }
+        -- the accelerated route on the buckets as the history left them; the query's own builds stay
+        let b := bucketRouteS d.cfg d.st q
+        let bSpec := bucketRoute d.cfg d.store q
+        let s := scanRoute d.cfg d.store q
+        let d' := { d with st := afterQuery d.cfg d.st q }
+        let sNd := cuts q && hasTies q.slot (scanRows q d.store)
+        let bNd := match bucketRows d.cfg q d.store with
+          | some rows => cuts q && hasTies q.slot rows
+          | none => sNd
+        let fs := (if b != bSpec then trackFlags d.cfg else []) ++ (if bSpec != s then explain d.cfg d.store q else [])
+        let fl := if bNd || sNd || b == s then "" else String.join ((if fs.isEmpty then ["C08-unexplained"] else fs).map (fun f => "\t#F:" ++ f))
+        (d', "b=" ++ (if bNd then "nd" else renderItems b) ++ " s=" ++ (if sNd then "nd" else renderItems s) ++ fl)
+    | _, _, _, _, _, _ => (d, "bad-op")
+
 def step (d : DSt) (line : String) : DSt × String :=
   match line.splitOn " " with
   | ["case", _] => ({ d with st := BSt.init, held := none }, line)
@@ -295,29 +324,8 @@ def step (d : DSt) (line : String) : DSt × String :=
     | _, _, _ => (d, "bad-op")
   | ["del", k] => ({ d with st := stepDel d.cfg d.st k }, "ok")
   | ["reload"] => ({ d with st := stepB d.cfg d.st .reload }, "ok")
-  | ["q", idx, ord, fr, lim, ft, tt, mx, filt] =>
-    match slotOf idx, fr.toNat?, lim.toNat?, optT ft, optT tt, mx.toNat? with
-    | some sl, some fr, some lim, some ft, some tt, some mx =>
-      let g? : Option (Option Group) := if filt == "-" then some none else (parseGroup filt).map some
-      match g? with
-      | none => (d, "bad-op")
-      | some g =>
-        if d.store.isEmpty then (d, "b=err:noswamp s=err:noswamp") else
-        let q : Query := { slot := sl, asc := ord == "asc", from_ := fr, limit := lim, fromT := ft, toT := tt,
-                           maxResults := mx, filter := g }
-        -- the accelerated route on the buckets as the history left them; the query's own builds stay
-        let b := bucketRouteS d.cfg d.st q
-        let bSpec := bucketRoute d.cfg d.store q
-        let s := scanRoute d.cfg d.store q
-        let d' := { d with st := afterQuery d.cfg d.st q }
-        let sNd := cuts q && hasTies q.slot (scanRows q d.store)
-        let bNd := match bucketRows d.cfg q d.store with
-          | some rows => cuts q && hasTies q.slot rows
-          | none => sNd
-        let fs := (if b != bSpec then trackFlags d.cfg else []) ++ (if bSpec != s then explain d.cfg d.store q else [])
-        let fl := if bNd || sNd || b == s then "" else String.join ((if fs.isEmpty then ["C08-unexplained"] else fs).map (fun f => "\t#F:" ++ f))
-        (d', "b=" ++ (if bNd then "nd" else renderItems b) ++ " s=" ++ (if sNd then "nd" else renderItems s) ++ fl)
-    | _, _, _, _, _, _ => (d, "bad-op")
+  | ["q", idx, ord, fr, lim, ft, tt, mx, filt, "m"] => qStep d idx ord fr lim ft tt mx filt
+  | ["q", idx, ord, fr, lim, ft, tt, mx, filt] => qStep d idx ord fr lim ft tt mx filt
   | _ => (d, "bad-op")
 
 def yes (kv : List (String × String)) (k : String) : Bool := arg kv k == "yes"
@@ -335,7 +343,7 @@ def run (args : List String) : IO UInt32 := do
     bucketWindowTimeOnly := yes kv "bucketWindowTimeOnly",
     bucketNotifyInsert := yes kv "bucketNotifyInsert", bucketNotifyUpdate := yes kv "bucketNotifyUpdate",
     bucketNotifyDelete := yes kv "bucketNotifyDelete", bucketPendingReplayed := yes kv "bucketPendingReplayed",
-    readerDrainsInFlight := yes kv "readerDrainsInFlight" }
+    readerDrainsInFlight := yes kv "readerDrainsInFlight", bucketNotifyAfterAdd := yes kv "bucketNotifyAfterAdd" }
   lineLoop step { cfg := cfg, st := BSt.init }
   return 0
 
